@@ -116,6 +116,7 @@ std::string site_name(const void *site_pc);
 // `on_die` (if set) is called to produce the line.
 extern std::function<std::string(int endkind, const std::string &detail)> on_die;
 [[noreturn]] void die(int endkind, const std::string &detail);
+void flush_coverage();                   // writes gcov counters in coverage builds, no-op otherwise
 extern int result_fd;
 extern int stderr_capture_fd;            // regular file opened O_APPEND, or -1
 std::string read_captured_stderr();
